@@ -2640,7 +2640,11 @@ private:
       }
       if (_config.serverTls.verifyPeer)
       {
-        ::SSL_CTX_set_verify(_sslSrv, SSL_VERIFY_PEER, nullptr);
+        // SSL_VERIFY_PEER alone only *requests* a client certificate: a client that
+        // sends none still completes the handshake. verifyPeer on the server side means
+        // "require a valid client certificate" (HttpServer::TlsConfig::requireClientCert
+        // maps onto it), so the handshake must fail when none is presented.
+        ::SSL_CTX_set_verify(_sslSrv, SSL_VERIFY_PEER | SSL_VERIFY_FAIL_IF_NO_PEER_CERT, nullptr);
         if (!_config.serverTls.caFile.empty() || !_config.serverTls.caPath.empty())
         {
           if (::SSL_CTX_load_verify_locations(_sslSrv,
